@@ -58,9 +58,14 @@ def _magic():
     return magic.pool()
 
 
+def _boost(p):
+    from . import magic
+    return magic.boost(p)
+
+
 def rint(rnd, lo=-2**63, hi=2**63 - 1):
     k = rnd.random()
-    if k < 0.05:
+    if k < _boost(0.05):
         v = _magic().rint(rnd, lo, hi)
         if v is not None:
             return v
@@ -132,7 +137,7 @@ def rshortstr(rnd):
         n = rnd.randint(0, 255)
     if rnd.random() < 0.04:
         return rnd.choice(LOOKALIKES)
-    if rnd.random() < 0.06:
+    if rnd.random() < _boost(0.06):
         m = _magic().rstr(rnd, 255)
         if m is not None:
             return m
@@ -156,7 +161,7 @@ def rlongstr(rnd, big=False):
         return '\ufeff' + rstr_bytes(rnd, n - 3)
     if rnd.random() < 0.04:
         return rnd.choice(LOOKALIKES)
-    if rnd.random() < 0.06:
+    if rnd.random() < _boost(0.06):
         m = _magic().rstr(rnd, 70000)
         if m is not None:
             return m
@@ -193,7 +198,7 @@ def rkey(rnd):
         return rnd.choice(TEMPLATE_KEYS)
     if k < 0.17:
         return rnd.choice(LOOKALIKES)
-    if k < 0.23:
+    if k < 0.17 + _boost(0.06):
         m = _magic().rstr(rnd, 255, 128)
         if m is not None:
             return m
@@ -231,7 +236,7 @@ def rfloat(rnd):
     k = rnd.random()
     if k < 0.06:
         return rnd.choice(BEYOND_SINGLE)
-    if k < 0.1:
+    if k < 0.06 + _boost(0.04):
         return rnd.choice(_magic().floats) * rnd.choice([1, 1, -1, 0.5])
     if k < 0.25:
         return rnd.choice([0.0, -0.0, 1.0, -1.0, 0.1, 1e-45, -1e-45,
@@ -262,9 +267,9 @@ def rdecimal(rnd):
     unscaled = rnd.choice(UNSCALED) if rnd.random() < 0.5 \
         else rnd.randint(-2**31, 2**31 - 1)
     scale = rnd.choice(SCALES) if rnd.random() < 0.6 else rnd.randint(0, 255)
-    if rnd.random() < 0.08:
+    if rnd.random() < _boost(0.08):
         unscaled = _magic().rint(rnd, -2**31, 2**31 - 1) or unscaled
-    if rnd.random() < 0.08:
+    if rnd.random() < _boost(0.08):
         scale = _magic().rint(rnd, 0, 255) or scale
     if k < 0.2 and scale == 0:
         # positive exponent form: coefficient * 10**e still within 32 bits
@@ -281,7 +286,7 @@ OFFSETS = [0, 60, -60, 330, 345, -570, 840, -720, 765, 1, -1439, 1439]
 
 
 def rinstant(rnd):
-    if rnd.random() < 0.06:
+    if rnd.random() < _boost(0.06):
         v = _magic().rint(rnd, 0, 2**32 - 1)
         if v is not None:
             return v
@@ -353,7 +358,7 @@ def leaf(rnd, kind=None):
         return rlongstr(rnd)
     if kind == 'bytearray':
         n = rnd.choice([0, 1, 2, 255, 256, rnd.randint(0, 40)])
-        if rnd.random() < 0.06:
+        if rnd.random() < _boost(0.06):
             return bytearray(_magic().rbytes(rnd))
         b = bytearray(rnd.randbytes(n))
         if n and rnd.random() < 0.3:
